@@ -66,6 +66,8 @@ TRUSTED = [
     'SIGINT / SIGTERM handlers of _run_tests, --gdb / --interactive, benchmarks, test setups (--setup), --wrapper and '
     'positional test-name arguments (fnmatch) are outside the model and are not generated',
     'TAP classification is checked on a hand-labelled set of streams only (C18 owns the TAP parser)',
+    'liveness of a test\'s child processes (process group killed on timeout / cancellation) is not in the Lean model: '
+    'it is decided by the heartbeat oracle of the end-to-end liveness leg only (harness/c12_live.py)',
 ]
 
 GEN_PATH = os.path.join(common.LEAN, 'MesonModel', 'Generated', 'SchedTables.lean')
@@ -1242,6 +1244,8 @@ def run(ctx: Ctx) -> None:
     ctx.extra['traces_validated_against_impl'] = ctx.extra.get('traces_validated_against_impl', 0) + validated
     e2e_stream(ctx, ctx.scale(1, 10), ctx.scale(3, 7))
     e2e_cancel_race(ctx, ctx.scale(2, 6))
+    from . import c12_live
+    c12_live.run_leg(ctx, ctx.deep)
     ctx.exhaustive = False
     if os.environ.get('VERIF_C12_DEBUG'):
         for d in ctx.disagreements[:10]:
@@ -1318,6 +1322,10 @@ def replay(ctx: Ctx, rep: dict) -> None:
                 print('model :', ctx.driver('sched', [tl])[0])
         finally:
             common.rmtree(base)
+    elif case.get('stream') == 'e2e-liveness':
+        from . import c12_live
+        c12_live.run_leg(ctx, True)
+        print('violations:', [v['what'] for v in ctx.violations])
     elif case.get('stream') == 'e2e-cancel-race':
         e2e_cancel_race(ctx, 3)
         print('violations:', [v['what'] for v in ctx.violations])
